@@ -352,12 +352,12 @@ def handle (st : St) (j : Json) : D (St × Json) := do
         | some V =>
           let okc := equivCheck d sigma r V
           let extra := if okc then [("cert", Json.str (certToLean V))] else
-            [("witness", match distinguish d sigma r 7 with
+            [("witness", match (distinguish d sigma r 7).orElse (fun _ => distinguishProduct d sigma r) with
               | some (w, a, b) => Json.arr #[eNats w, Json.bool a, Json.bool b]
               | none => Json.null)]
           return (st, ok (Json.mkObj (base ++ [("equiv", Json.bool okc)] ++ extra)))
         | none =>
-          return (st, ok (Json.mkObj (base ++ [("equiv", Json.bool false), ("witness", match distinguish d sigma r 7 with
+          return (st, ok (Json.mkObj (base ++ [("equiv", Json.bool false), ("witness", match (distinguish d sigma r 7).orElse (fun _ => distinguishProduct d sigma r) with
               | some (w, a, b) => Json.arr #[eNats w, Json.bool a, Json.bool b]
               | none => Json.null)])))
   | "rematch" =>
